@@ -2,6 +2,8 @@ import Brax.Lemmas.KinEquiv
 import Brax.Lemmas.ScanSpec
 import Brax.Lemmas.C05Spring
 import Brax.Lemmas.C05Pos
+import Brax.Lemmas.C05PermPos
+import Brax.Lemmas.C05Gen
 /-!
 # C05 — physics does not depend on how the scene is represented
 
@@ -621,4 +623,622 @@ example (inv : List (Tf ℝ) → List (Motion ℝ) → List ℝ × List ℝ) (ac
     | cons a as ih => intro st; exact ⟨dispClear_of_free exSys1 st a hfree, ih _⟩
 end positional
 
+end Brax.C05
+
+/-! ## sibling order and components, whole step
+
+"Listing sibling bodies in a different order only permutes the per-link results, and mechanically
+disconnected parts of one model evolve exactly as each would alone" — for a whole contact-free
+`pipeline.step` of the spring and of the positional pipeline (lemmas: `Lemmas/C05Perm.lean`,
+`Lemmas/C05PermPos.lean`; one general theorem, `step_restr` / `pstep_restr`: the step restricts
+along any embedding of a union of connected components).
+
+**Components.**  `unionSys s1 s2`: links of `s1` followed by links of `s2`, the non-negative parent
+ids of `s2` shifted by `s1.numLinks` (`Kin.shiftParents`, as in `components_independent`), dof
+arrays concatenated, actuators of `s2` re-indexed (`q_id + s1.nq`, `qd_id + s1.nv`), options of
+`s1`.  `unionState`: every array of the state concatenated.  Hypotheses, all explicit:
+* `Sys.WF` of both systems (array lengths, `-1 ≤ parent i < i`, actuator ids in range — the last
+  one is what keeps `actuator.to_tau` of the first part from reading the second part's `q`);
+* `SameGlobals` (`SameGlobalsP`): the options the step reads (`dof.limit is None`, gravity, dt, the
+  two dampings, `spring_inertia_scale`; positional also `spring_mass_scale`, `joint_scale_pos/ang`)
+  are equal — one model has one set of options;
+* `State.WF` of both states (array lengths); `act1.length = s1.acts.length` (the controls of the
+  union are split where the actuators are);
+* `InvSplit`: `kinematics.inverse` (the abstract parameter `inv`) of the union is the concatenation
+  of the inverses (the real one computes each link's `q`/`qd` slice from that link's own row).
+Not needed: free roots, unit quaternions, positive masses.  The model's wart — `joints.resolve`
+computes a root's parent-side lever arm against `x_i.take(-1)`, which in the union is the last link
+of the *other* part — does not leak: that entry carries id `-1` and `segment_sum` drops it
+(`C05Perm.assemble_restr`).
+
+**Sibling order.**  `Relabel σ τ s s'`: `σ` (new index ↦ old index) is a bijection of the links with
+inverse `τ`, `s'.links` / `s'.parents` are the relabelled arrays (`Kin.permParents`, as in
+`scan_sibling_permutation`), same options.  `DofsRelabel`: link types and the flat dof array are
+permuted blockwise.  `ActRel`: the actuators are the same actuators, in the same order, re-indexed to
+the moved blocks, and read equal coordinates of `(q', qd')` and `(q, qd)` (which is what "the flat
+`q`/`qd` arrays are permuted blockwise" gives).  `permState`: every per-link array relabelled.
+The result's `q`, `qd` are `kinematics.inverse` of the relabelled system applied to the relabelled
+`j`, `jd` (a congruence, as in `spring_step_equivariant`).
+**Stronger than asked**: nothing is assumed about the order of parents and children in either
+numbering — a step of these two pipelines never scans the tree (`kinematics.forward`, used by
+`init` only, does).
+
+Not proved here: the generalized pipeline; `init` (= `kinematics.forward`, for which the
+scan-level statements `scan_sibling_permutation` / `components_independent` above apply);
+several steps (needs `InvSplit` plus the output lengths of `inv`); scenes with contacts. -/
+namespace Brax.C05
+section permWhole
+open C05L C05P C04L MC C05Perm
+
+/-- **C05, mechanically disconnected parts, one whole spring step (contact-free)**: equality of
+whole `Spring.State`s -/
+theorem spring_step_components (inv12 inv1 inv2 : List (Tf ℝ) → List (Motion ℝ) → List ℝ × List ℝ)
+    (s1 s2 : Sys ℝ) (st1 st2 : Spring.State ℝ) (act1 act2 : List ℝ)
+    (hwf1 : s1.WF = true) (hwf2 : s2.WF = true) (hg : SameGlobals s1 s2)
+    (hst1 : Spring.State.WF s1 st1 = true) (hst2 : Spring.State.WF s2 st2 = true)
+    (hact : act1.length = s1.acts.length) (hinv : InvSplit s1.numLinks inv12 inv1 inv2) :
+    Spring.step inv12 (fun _ => []) (unionSys s1 s2) (unionState st1 st2) (act1 ++ act2)
+      = unionState (Spring.step inv1 (fun _ => []) s1 st1 act1)
+          (Spring.step inv2 (fun _ => []) s2 st2 act2) :=
+  spring_step_union inv12 inv1 inv2 s1 s2 st1 st2 act1 act2 (WFParts.of_wf hwf1) (WFParts.of_wf hwf2)
+    hg (StLens.of_wf hst1) (StLens.of_wf hst2) hact hinv
+
+/-- **C05, mechanically disconnected parts, one whole positional step (contact-free)** -/
+theorem positional_step_components
+    (inv12 inv1 inv2 : List (Tf ℝ) → List (Motion ℝ) → List ℝ × List ℝ)
+    (s1 s2 : Sys ℝ) (st1 st2 : Positional.State ℝ) (act1 act2 : List ℝ)
+    (hwf1 : s1.WF = true) (hwf2 : s2.WF = true) (hg : SameGlobalsP s1 s2)
+    (hst1 : Positional.State.WF s1 st1 = true) (hst2 : Positional.State.WF s2 st2 = true)
+    (hact : act1.length = s1.acts.length) (hinv : InvSplit s1.numLinks inv12 inv1 inv2) :
+    Positional.step inv12 (fun _ => []) (unionSys s1 s2) (unionStateP st1 st2) (act1 ++ act2)
+      = unionStateP (Positional.step inv1 (fun _ => []) s1 st1 act1)
+          (Positional.step inv2 (fun _ => []) s2 st2 act2) :=
+  positional_step_union inv12 inv1 inv2 s1 s2 st1 st2 act1 act2 (WFParts.of_wf hwf1)
+    (WFParts.of_wf hwf2) hg (PStLens.of_wf hst1) (PStLens.of_wf hst2) hact hinv
+
+/-- **C05, sibling order, one whole spring step (contact-free)**: the step of the relabelled
+system on the relabelled state is the relabelling of the step -/
+theorem spring_step_sibling_order (inv inv' : List (Tf ℝ) → List (Motion ℝ) → List ℝ × List ℝ)
+    {σ τ : Nat → Nat} {s s' : Sys ℝ} (hR : Relabel σ τ s s') (hD : DofsRelabel σ s s')
+    (st : Spring.State ℝ) (act q' qd' : List ℝ) (hxi : st.x_i.length = s.numLinks)
+    (hA : List.Forall₂ (ActRel σ s s' st.q st.qd q' qd') s'.acts s.acts) :
+    Spring.step inv' (fun _ => []) s' (permState σ s.numLinks st q' qd') act
+      = permState σ s.numLinks (Spring.step inv (fun _ => []) s st act)
+          (inv' (permList σ s.numLinks (Spring.step inv (fun _ => []) s st act).j)
+                (permList σ s.numLinks (Spring.step inv (fun _ => []) s st act).jd)).1
+          (inv' (permList σ s.numLinks (Spring.step inv (fun _ => []) s st act).j)
+                (permList σ s.numLinks (Spring.step inv (fun _ => []) s st act).jd)).2 :=
+  spring_step_relabel inv inv' hR st act act q' qd' hxi
+    (insAgree_of_flat σ s s' act st.q st.qd q' qd' hD hA)
+
+/-- **C05, sibling order, one whole positional step (contact-free)** -/
+theorem positional_step_sibling_order
+    (inv inv' : List (Tf ℝ) → List (Motion ℝ) → List ℝ × List ℝ)
+    {σ τ : Nat → Nat} {s s' : Sys ℝ} (hR : RelabelP σ τ s s') (hD : DofsRelabel σ s s')
+    (st : Positional.State ℝ) (act q' qd' : List ℝ) (hxi : st.x_i.length = s.numLinks)
+    (hA : List.Forall₂ (ActRel σ s s' st.q st.qd q' qd') s'.acts s.acts) :
+    Positional.step inv' (fun _ => []) s' (permStateP σ s.numLinks st q' qd') act
+      = permStateP σ s.numLinks (Positional.step inv (fun _ => []) s st act)
+          (inv' (permList σ s.numLinks (Positional.step inv (fun _ => []) s st act).j)
+                (permList σ s.numLinks (Positional.step inv (fun _ => []) s st act).jd)).1
+          (inv' (permList σ s.numLinks (Positional.step inv (fun _ => []) s st act).j)
+                (permList σ s.numLinks (Positional.step inv (fun _ => []) s st act).jd)).2 :=
+  positional_step_relabel inv inv' hR st act act q' qd' hxi
+    (insAgree_of_flat σ s s' act st.q st.qd q' qd' hD hA) (insAgree0_of_dofs σ s s' hD)
+
+/-! ### non-vacuity -/
+
+theorem exSys_wf : exSys.WF = true := by
+  simp [Sys.WF, exSys, Sys.nq, Sys.nv, LinkType.qWidth, LinkType.qdWidth, List.range_succ]
+  decide
+
+/-- an `inv` that really reads every link's row, and splits -/
+noncomputable def exInv (j : List (Tf ℝ)) (jd : List (Motion ℝ)) : List ℝ × List ℝ :=
+  (j.flatMap fun t => [t.pos.x], jd.flatMap fun m => [m.ang.z])
+
+/-- all hypotheses of `spring_step_components` hold for two copies of the free root + hinged,
+motor-driven child (`exSys`, `exState`): the union is a 4-link, 2-actuator model -/
+example : exSys.WF = true ∧ SameGlobals exSys exSys ∧ Spring.State.WF exSys exState = true
+    ∧ ([0.5] : List ℝ).length = exSys.acts.length ∧ InvSplit exSys.numLinks exInv exInv exInv
+    ∧ (unionSys exSys exSys).parents = [-1, 0, -1, 2]
+    ∧ (unionSys exSys exSys).acts.map (fun a => (a.qId, a.qdId)) = [(7, 6), (15, 13)] := by
+  refine ⟨exSys_wf, ⟨rfl, rfl, rfl, rfl, rfl, rfl⟩, ?_, rfl, ?_, ?_, ?_⟩
+  · simp [Spring.State.WF, exSys, exState, Sys.numLinks, Sys.nq, Sys.nv, LinkType.qWidth, LinkType.qdWidth]
+  · intro j1 j2 jd1 jd2 _ _
+    simp [exInv, List.flatMap_append]
+  · simp [unionSys, exSys, Kin.shiftParents, Sys.numLinks]
+  · simp [unionSys, exSys, shiftAct, Sys.nq, Sys.nv, LinkType.qWidth, LinkType.qdWidth]
+
+/-- the positional hypotheses on the same pair -/
+example : SameGlobalsP exSys exSys ∧ Positional.State.WF exSys exStateP = true :=
+  ⟨⟨⟨rfl, rfl, rfl, rfl, rfl, rfl⟩, rfl, rfl, rfl⟩, by
+    simp [Positional.State.WF, exSys, exStateP, exState, Sys.numLinks, Sys.nq, Sys.nv,
+      LinkType.qWidth, LinkType.qdWidth]⟩
+
+/-- a second link, to tell the two siblings apart -/
+noncomputable def exLink2 : LinkP ℝ := ⟨Tf.id, Tf.id, ⟨Tf.id, M3.one, 2⟩, 1, 50, 1, 100, 1⟩
+/-- free root with two hinged children (about `z` and about `y`); a motor on the first child -/
+noncomputable def exSys3 : Sys ℝ :=
+  { exSys with
+    types := [.free, .one, .one], parents := [-1, 0, 0], links := [exLink, exLink, exLink2],
+    dofs := exSys.dofs ++ [exDof ⟨0, 1, 0⟩ ⟨0, 0, 0⟩] }
+/-- the same model with the two children listed in the other order: link parameters, dof blocks and
+the actuator's ids move -/
+noncomputable def exSys3' : Sys ℝ :=
+  { exSys with
+    types := [.free, .one, .one], parents := [-1, 0, 0], links := [exLink, exLink2, exLink],
+    dofs := exSys.dofs.take 6 ++ [exDof ⟨0, 1, 0⟩ ⟨0, 0, 0⟩, exDof ⟨0, 0, 1⟩ ⟨0, 0, 0⟩],
+    acts := [⟨8, 7, none, none, none, none, 1, 1, 0, 0⟩] }
+/-- swap links 1 and 2 -/
+def exSwap (k : Nat) : Nat := [0, 2, 1].getD k k
+
+theorem exRelabel : Relabel exSwap exSwap exSys3 exSys3' where
+  n' := rfl
+  σlt := by
+    intro k hk; have hk' : k < 3 := hk
+    show exSwap k < 3
+    match k, hk' with | 0, _ | 1, _ | 2, _ => decide
+  τlt := by
+    intro k hk; have hk' : k < 3 := hk
+    show exSwap k < 3
+    match k, hk' with | 0, _ | 1, _ | 2, _ => decide
+  τσ := by
+    intro k hk; have hk' : k < 3 := hk
+    match k, hk' with | 0, _ | 1, _ | 2, _ => decide
+  στ := by
+    intro k hk; have hk' : k < 3 := hk
+    match k, hk' with | 0, _ | 1, _ | 2, _ => decide
+  links := by
+    simp [exSys3, exSys3', permList, tab, nth, exSwap, Sys.numLinks, List.range_succ]
+  parents := by
+    simp [exSys3, exSys3', Kin.permParents, exSwap, Sys.numLinks, List.range_succ]
+  plen := rfl
+  llen := rfl
+  par := by
+    intro k hk; have hk' : k < 3 := hk
+    match k, hk' with
+    | 0, _ | 1, _ | 2, _ => simp [parentOf, exSys3, Sys.numLinks]
+  hasLimit := rfl
+  gravity := rfl
+  dt := rfl
+  velDamping := rfl
+  angDamping := rfl
+  inertiaScale := rfl
+
+theorem exDofsRelabel : DofsRelabel exSwap exSys3 exSys3' := by
+  intro k t h
+  match k with
+  | 0 =>
+    simp [exSys3'] at h; subst h
+    exact ⟨rfl, rfl⟩
+  | 1 =>
+    simp [exSys3'] at h; subst h
+    exact ⟨rfl, rfl⟩
+  | 2 =>
+    simp [exSys3'] at h; subst h
+    exact ⟨rfl, rfl⟩
+  | k + 3 => simp [exSys3'] at h
+
+/-- all hypotheses of `spring_step_sibling_order` / `positional_step_sibling_order` hold for the
+two listings of the free root with two hinged children, with the coordinates of the two hinges
+exchanged in `q'`, `qd'` -/
+example :
+    Relabel exSwap exSwap exSys3 exSys3' ∧ RelabelP exSwap exSwap exSys3 exSys3'
+    ∧ DofsRelabel exSwap exSys3 exSys3'
+    ∧ List.Forall₂ (ActRel exSwap exSys3 exSys3' [0, 0, 1, 1, 0, 0, 0, 0.3, -0.2] [0, 0, 0, 0, 0, 0, 0.1, 0.4]
+        [0, 0, 1, 1, 0, 0, 0, -0.2, 0.3] [0, 0, 0, 0, 0, 0, 0.4, 0.1]) exSys3'.acts exSys3.acts := by
+  refine ⟨exRelabel, ⟨exRelabel, rfl, rfl, rfl⟩, exDofsRelabel, ?_⟩
+  show List.Forall₂ _ [_] [_]
+  refine List.Forall₂.cons ⟨fun _ _ _ => rfl, ?_, ?_, ?_⟩ List.Forall₂.nil
+  · simp [nthS]
+  · simp [nthS]
+  · intro k t r h hr
+    match k with
+    | 0 =>
+      simp [exSys3'] at h; subst h
+      simp [qdOff, Kin.offsets, exSys3, exSys3', exSwap, LinkType.qdWidth] at hr ⊢
+      omega
+    | 1 =>
+      simp [exSys3'] at h; subst h
+      simp [qdOff, Kin.offsets, exSys3, exSys3', exSwap, LinkType.qdWidth] at hr ⊢
+      omega
+    | 2 =>
+      simp [exSys3'] at h; subst h
+      simp [qdOff, Kin.offsets, exSys3, exSys3', exSwap, LinkType.qdWidth] at hr ⊢
+    | k + 3 => simp [exSys3'] at h
+
+end permWhole
+end Brax.C05
+
+/-! ### sibling order and components, whole step — trajectories of a disjoint union -/
+namespace Brax.C05
+section permTraj
+open C05L C05P C04L MC C05Perm
+
+/-- **C05, mechanically disconnected parts, any number of contact-free spring steps**: the union
+driven by the concatenated controls evolves exactly as the two parts evolve alone.  `InvLen`:
+`kinematics.inverse` returns `nq` positions and `nv` velocities. -/
+theorem spring_trajectory_components
+    (inv12 inv1 inv2 : List (Tf ℝ) → List (Motion ℝ) → List ℝ × List ℝ) (s1 s2 : Sys ℝ)
+    (hwf1 : s1.WF = true) (hwf2 : s2.WF = true) (hg : SameGlobals s1 s2)
+    (hinv : InvSplit s1.numLinks inv12 inv1 inv2) (hi1 : InvLen s1 inv1) (hi2 : InvLen s2 inv2)
+    (acts : List (List ℝ × List ℝ)) (hact : ∀ p ∈ acts, p.1.length = s1.acts.length)
+    (st1 st2 : Spring.State ℝ) (hst1 : Spring.State.WF s1 st1 = true)
+    (hst2 : Spring.State.WF s2 st2 = true) :
+    steps inv12 (unionSys s1 s2) (unionState st1 st2) (acts.map fun p => p.1 ++ p.2)
+      = unionState (steps inv1 s1 st1 (acts.map (·.1))) (steps inv2 s2 st2 (acts.map (·.2))) :=
+  spring_steps_union inv12 inv1 inv2 s1 s2 (WFParts.of_wf hwf1) (WFParts.of_wf hwf2) hg hinv hi1 hi2
+    acts hact st1 st2 (StLens.of_wf hst1) (StLens.of_wf hst2)
+
+/-- **C05, mechanically disconnected parts, any number of contact-free positional steps** -/
+theorem positional_trajectory_components
+    (inv12 inv1 inv2 : List (Tf ℝ) → List (Motion ℝ) → List ℝ × List ℝ) (s1 s2 : Sys ℝ)
+    (hwf1 : s1.WF = true) (hwf2 : s2.WF = true) (hg : SameGlobalsP s1 s2)
+    (hinv : InvSplit s1.numLinks inv12 inv1 inv2) (hi1 : InvLen s1 inv1) (hi2 : InvLen s2 inv2)
+    (acts : List (List ℝ × List ℝ)) (hact : ∀ p ∈ acts, p.1.length = s1.acts.length)
+    (st1 st2 : Positional.State ℝ) (hst1 : Positional.State.WF s1 st1 = true)
+    (hst2 : Positional.State.WF s2 st2 = true) :
+    psteps inv12 (unionSys s1 s2) (unionStateP st1 st2) (acts.map fun p => p.1 ++ p.2)
+      = unionStateP (psteps inv1 s1 st1 (acts.map (·.1))) (psteps inv2 s2 st2 (acts.map (·.2))) :=
+  positional_steps_union inv12 inv1 inv2 s1 s2 (WFParts.of_wf hwf1) (WFParts.of_wf hwf2) hg hinv hi1
+    hi2 acts hact st1 st2 (PStLens.of_wf hst1) (PStLens.of_wf hst2)
+
+/-! non-vacuity of `InvSplit` + `InvLen`, for **every** pair of systems: an `inv` shaped like the
+real `kinematics.inverse` (each link's row gives that link's `Q_WIDTHS` / `QD_WIDTHS` entries) -/
+
+/-- a type-driven `inv`: link `i` contributes `qWidth` copies of `j[i].pos.x` and `qdWidth` copies
+of `jd[i].ang.z` -/
+noncomputable def exInvS (s : Sys ℝ) (j : List (Tf ℝ)) (jd : List (Motion ℝ)) : List ℝ × List ℝ :=
+  ((List.zipWith (fun (t : LinkType) (x : Tf ℝ) => List.replicate t.qWidth x.pos.x) s.types j).flatten,
+   (List.zipWith (fun (t : LinkType) (m : Motion ℝ) => List.replicate t.qdWidth m.ang.z) s.types jd).flatten)
+
+theorem exInvS_split (s1 s2 : Sys ℝ) :
+    InvSplit s1.numLinks (exInvS (unionSys s1 s2)) (exInvS s1) (exInvS s2) := by
+  intro j1 j2 jd1 jd2 h1 h2
+  have e1 : s1.types.length = j1.length := by rw [h1]; rfl
+  have e2 : s1.types.length = jd1.length := by rw [h2]; rfl
+  show ((List.zipWith _ (s1.types ++ s2.types) (j1 ++ j2)).flatten,
+    (List.zipWith _ (s1.types ++ s2.types) (jd1 ++ jd2)).flatten) = _
+  rw [List.zipWith_append e1, List.zipWith_append e2, List.flatten_append, List.flatten_append]
+  rfl
+
+theorem flatten_zipWith_replicate_length {β : Type} (w : LinkType → Nat) (f : β → ℝ) :
+    ∀ (ts : List LinkType) (xs : List β), xs.length = ts.length →
+      (List.zipWith (fun t x => List.replicate (w t) (f x)) ts xs).flatten.length = (ts.map w).sum
+  | [], _, _ => by simp
+  | t :: ts, [], h => by simp at h
+  | t :: ts, x :: xs, h => by
+    simp only [List.zipWith_cons_cons, List.flatten_cons, List.length_append, List.length_replicate,
+      List.map_cons, List.sum_cons]
+    rw [flatten_zipWith_replicate_length w f ts xs (by simpa using h)]
+
+theorem exInvS_len (s : Sys ℝ) : InvLen s (exInvS s) := by
+  intro j jd h1 h2
+  exact ⟨flatten_zipWith_replicate_length LinkType.qWidth (fun x : Tf ℝ => x.pos.x) s.types j h1,
+    flatten_zipWith_replicate_length LinkType.qdWidth (fun m : Motion ℝ => m.ang.z) s.types jd h2⟩
+
+end permTraj
+end Brax.C05
+
+/-! ===== begin section C05c (generalized pipeline), appended by the C05c deepening ===== -/
+
+/-! ## The generalized pipeline: one constraint-free `pipeline.step` commutes with a rigid transform
+(section of the C05c deepening; stage lemmas in `Lemmas/C05Gen.lean`, namespace `Brax.C05G`)
+
+The generalized pipeline works in joint coordinates.  `g • sys = gSys g sys` (gravity rotated);
+`g • q = xqFlat g sys.types q` (pose of every free root composed with `g`, hinge/slide coordinates
+unchanged); `g • v = pFlat g sys.types v` for a per-dof vector `v` (`qd`, joint forces, `qdd`): the three
+translational entries of every free root rotate as a vector, every other entry — including the free
+root's *body-frame* angular velocity — is unchanged.  These are exactly the inputs `forward_equivariant`
+is about (`C05G.linkSlices_xform`: their per-link slices are `KinEquiv.xformIn g` of the original ones).
+
+Stages (all proved for every free-rooted forest of any size, `Lemmas/C05Gen.lean`):
+`rootCom_equiv` (tree centre of mass `↦ g ∘ ·`), `cinrLink_equiv` (CoM-frame inertia `↦` the rotated
+inertia, stated extensionally: `I' (R m) = R (I m)`), `cdofLink_equiv` (dof rows rotate — except the
+three translational rows of a free root, which are the world axes `(0, e_k)` in *both* scenes; this is why
+the translational entries of per-dof vectors rotate), `tcCd_equiv` (link velocities rotate),
+`cdofdLink_equiv`, `transformCom_equiv` (all of `transform_com`), `inverse_equiv` (the whole recursive
+Newton–Euler bias force, both tree scans), `passiveLink_equiv`, `toTau_congrG`, `qfSmooth_equiv`,
+`integrateQFree_equiv` (the free-joint quaternion update **including its `1e-8` guard**: the guard acts on
+the body-frame angular velocity, which the transform does not change — no wart), `integrate_equiv`,
+`step_equiv_core`.
+
+What is **not** proved, and therefore a hypothesis (`hsolve`): that the linear solve commutes with the
+transform, `solve D' (g • b) = g • solve D b`.  `C05G.solve_equiv_of_exact` reduces it to (i) `solve` being
+an exact solve with a unique solution and (ii) the matrix identity `D' (g • y) = g • (D y)` for the damped
+mass matrices of the two scenes, i.e. `mass.matrix` of the transformed scene is `P M Pᵀ` with `P = pFlat g`
+orthogonal.  (ii) follows on paper from `cdofLink_equiv` + `cinrLink_equiv` + `C02.massMatrix_eq_keForm`
+(the quadratic form of `M` is the kinetic energy, link velocities rotate) by polarisation; it is not
+machine-checked here.  Everything else of the step is.
+
+Hypotheses, and why each is needed:
+* `g.rot.IsUnit` — `g` is a rigid transform;
+* `Full` — `q`, `qd`, `sys.dof` have the sizes of the system (`q_size`, `qd_size`): otherwise the slicing of
+  `scan.link_types` runs short and the flat and per-link views disagree;
+* `hps`, `hlk`, `hpar` — a forest, parents before children;
+* `hok` — `LinkOK` for every link (unit body quaternions, identity joint frames, unit hinge/slide axes; a free
+  link is a root with unit quaternion — what `mjcf.load_model` produces) and **every root is free**: a
+  hinge/slide on the world is anchored to a fixed world point, moving the scene is then not a symmetry.
+  Same hypothesis as `forward_equivariant`;
+* `hbasis` — a free joint has the dof rows `mjcf.load_model` writes (3 translations along the world axes, 3
+  rotations about the body axes);
+* `hmass` — the total mass of every tree is nonzero (`root_com` divides by it);
+* `hirot` — the inertial-frame quaternions are nonzero (`quat_to_3x3` divides by `|q|²`);
+* `hiso` — the three translational dofs of a free joint share damping and armature.  MJCF has one scalar per
+  joint, so every loaded model satisfies it; a `System` with three different values has a damper aligned
+  with the *world* axes, which genuinely is not rotation invariant (not a defect of the code);
+* `hact` — the coordinates actuators read agree in the two scenes (actuators drive hinge/slide dofs);
+* `htau` — the actuator force vanishes on the translational dofs of free roots (`C05G.pFlat_of_linZero`
+  derives it from that); a motor pushing a free body along a *world* axis is not rotation invariant;
+* `hqfc`, `hlen` — the constraint force and the solution of the solve have `qd_size` entries.  The constraint
+  force `qfc` is a parameter exactly as in `Gd.step` (zero without contacts and active limits); the
+  transformed scene gets `g • qfc`;
+* `hsolve` — see above.
+
+Full statement (kept visible; what `generalized_step_equivariant_partial` lacks is `hsolve`):
+
+def generalized_step_equivariant_Stmt : Prop :=
+  ∀ solve g s q qd act qfc, g.rot.IsUnit → ExactUniqueSolve solve → (all hypotheses below except hsolve) →
+    Gd.step solve (gSys g s) (dynInit (gSys g s) (g • q) (g • qd)) (g • q) (g • qd) act (g • qfc)
+      = g • Gd.step solve s (dynInit s q qd) q qd act qfc
+-/
+namespace Brax.C05
+section generalized
+open Brax Kin KinPos KinEquiv Gd C05G
+
+/-- `forward_equivariant` for the flat coordinates: the link poses of the transformed coordinates are the
+transformed link poses -/
+theorem generalized_forward_equivariant (g : Tf ℝ) (hg : g.rot.IsUnit) (s : Sys ℝ) (q qd : List ℝ)
+    (hfull : Full s q qd)
+    (hpar : ∀ i (h : i < s.parents.length), -1 ≤ s.parents[i] ∧ s.parents[i] < (i : Int))
+    (hok : ∀ x ∈ s.parents.zip (s.links.zip (linkSlices s.types q qd s.dofs)),
+      LinkOK x.1 x.2.1 x.2.2 ∧ (x.1 < 0 → x.2.2.typ = .free)) :
+    (Kin.forward s (xqFlat g s.types q) (pFlat g s.types qd)).map (·.1)
+      = ((Kin.forward s q qd).map (·.1)).map (Tf.doTf g) := by
+  rw [forward_eq_forwardIns, forward_eq_forwardIns,
+    linkSlices_xform g s.types q qd s.dofs (by rw [hfull.hq]; exact le_refl _)
+      (by rw [hfull.hqd]; exact le_refl _),
+    forward_equivariant s _ g hg (fun i h => (hpar i h).2) hok, List.map_map, List.map_map]
+  rfl
+
+/-- **C05, one constraint-free step of the generalized pipeline commutes with the rigid transform `g`**
+(partial: the linear solve is assumed to commute, `hsolve`; see the section comment) — the new `q` is the
+transform of the new `q`, the new `qd` and `qdd` are the transforms of the new `qd`, `qdd`, and the
+refreshed dynamics terms are those of the transformed coordinates in the transformed system. -/
+theorem generalized_step_equivariant_partial (solve : List (List ℝ) → List ℝ → List ℝ)
+    (g : Tf ℝ) (hg : g.rot.IsUnit) (s : Sys ℝ) (q qd act qfc : List ℝ)
+    (hfull : Full s q qd)
+    (hps : s.parents.length = s.types.length) (hlk : s.links.length = s.types.length)
+    (hpar : ∀ i (h : i < s.parents.length), -1 ≤ s.parents[i] ∧ s.parents[i] < (i : Int))
+    (hok : ∀ x ∈ s.parents.zip (s.links.zip (linkSlices s.types q qd s.dofs)),
+      LinkOK x.1 x.2.1 x.2.2 ∧ (x.1 < 0 → x.2.2.typ = .free))
+    (hbasis : ∀ l ∈ linkSlices s.types q qd s.dofs, l.typ = .free → l.dofs.map (·.motion) = freeBasis)
+    (hmass : ∀ r ∈ rootIdx s.parents,
+      segSum 0 (· + ·) (s.links.map (·.inertia.mass)) (rootIdx s.parents) r ≠ 0)
+    (hirot : ∀ lk ∈ s.links, Q4.normSq lk.inertia.tf.rot ≠ 0)
+    (hiso : ∀ l ∈ linkSlices s.types q qd s.dofs, IsoFree l)
+    (hact : ActAgreeG s.acts q qd (xqFlat g s.types q) (pFlat g s.types qd))
+    (htau : pFlat g s.types (toTau s.nv s.acts act q qd) = toTau s.nv s.acts act q qd)
+    (hqfc : qfc.length = s.nv)
+    (hlen : (solve (dampedMatrix (dynInit s q qd).massMx (s.dofs.map (·.damping)) s.dt)
+        (List.zipWith (· + ·) (qfSmooth s (dynInit s q qd) q qd act) qfc)).length = s.nv)
+    (hsolve : solve (dampedMatrix (dynInit (C05L.gSys g s) (xqFlat g s.types q) (pFlat g s.types qd)).massMx
+          (s.dofs.map (·.damping)) s.dt)
+        (pFlat g s.types (List.zipWith (· + ·) (qfSmooth s (dynInit s q qd) q qd act) qfc))
+      = pFlat g s.types (solve (dampedMatrix (dynInit s q qd).massMx (s.dofs.map (·.damping)) s.dt)
+          (List.zipWith (· + ·) (qfSmooth s (dynInit s q qd) q qd act) qfc))) :
+    Gd.step solve (C05L.gSys g s) (dynInit (C05L.gSys g s) (xqFlat g s.types q) (pFlat g s.types qd))
+        (xqFlat g s.types q) (pFlat g s.types qd) act (pFlat g s.types qfc)
+      = ((xqFlat g s.types (Gd.step solve s (dynInit s q qd) q qd act qfc).1.1,
+          pFlat g s.types (Gd.step solve s (dynInit s q qd) q qd act qfc).1.2.1,
+          pFlat g s.types (Gd.step solve s (dynInit s q qd) q qd act qfc).1.2.2),
+         dynInit (C05L.gSys g s) (xqFlat g s.types (Gd.step solve s (dynInit s q qd) q qd act qfc).1.1)
+          (pFlat g s.types (Gd.step solve s (dynInit s q qd) q qd act qfc).1.2.1)) :=
+  step_equiv_core g hg solve s q qd act qfc
+    (StepOK.of_linkOK g s q qd hfull hps hlk hpar hok hbasis hmass hirot hiso
+      (generalized_forward_equivariant g hg s q qd hfull hpar hok))
+    hact htau hqfc hlen hsolve
+
+/-- the joint-space quantities of `pipeline.init`/`pipeline.step`, one by one (no hypothesis on the solve):
+the CoM-frame terms of `transform_com`, the bias force, the passive force and the total smooth force of the
+transformed scene are the transforms of the original ones -/
+theorem generalized_dynamics_equivariant (g : Tf ℝ) (hg : g.rot.IsUnit) (s : Sys ℝ) (q qd act : List ℝ)
+    (hfull : Full s q qd)
+    (hps : s.parents.length = s.types.length) (hlk : s.links.length = s.types.length)
+    (hpar : ∀ i (h : i < s.parents.length), -1 ≤ s.parents[i] ∧ s.parents[i] < (i : Int))
+    (hok : ∀ x ∈ s.parents.zip (s.links.zip (linkSlices s.types q qd s.dofs)),
+      LinkOK x.1 x.2.1 x.2.2 ∧ (x.1 < 0 → x.2.2.typ = .free))
+    (hbasis : ∀ l ∈ linkSlices s.types q qd s.dofs, l.typ = .free → l.dofs.map (·.motion) = freeBasis)
+    (hmass : ∀ r ∈ rootIdx s.parents,
+      segSum 0 (· + ·) (s.links.map (·.inertia.mass)) (rootIdx s.parents) r ≠ 0)
+    (hirot : ∀ lk ∈ s.links, Q4.normSq lk.inertia.tf.rot ≠ 0)
+    (hiso : ∀ l ∈ linkSlices s.types q qd s.dofs, IsoFree l)
+    (hact : ActAgreeG s.acts q qd (xqFlat g s.types q) (pFlat g s.types qd))
+    (htau : pFlat g s.types (toTau s.nv s.acts act q qd) = toTau s.nv s.acts act q qd) :
+    ComRel g s.types (dynInit s q qd).com
+        (dynInit (C05L.gSys g s) (xqFlat g s.types q) (pFlat g s.types qd)).com
+    ∧ biasFlat (C05L.gSys g s) (dynInit (C05L.gSys g s) (xqFlat g s.types q) (pFlat g s.types qd))
+          (xqFlat g s.types q) (pFlat g s.types qd)
+        = pFlat g s.types (biasFlat s (dynInit s q qd) q qd)
+    ∧ passiveFlat (C05L.gSys g s) (xqFlat g s.types q) (pFlat g s.types qd)
+        = pFlat g s.types (passiveFlat s q qd)
+    ∧ qfSmooth (C05L.gSys g s) (dynInit (C05L.gSys g s) (xqFlat g s.types q) (pFlat g s.types qd))
+          (xqFlat g s.types q) (pFlat g s.types qd) act
+        = pFlat g s.types (qfSmooth s (dynInit s q qd) q qd act) := by
+  have h := StepOK.of_linkOK g s q qd hfull hps hlk hpar hok hbasis hmass hirot hiso
+    (generalized_forward_equivariant g hg s q qd hfull hpar hok)
+  exact ⟨dynInit_com_equiv g hg s q qd h, bias_equiv g hg s q qd h, passive_equiv g hg s q qd h,
+    qfSmooth_equiv g hg s q qd h act hact htau⟩
+
+/-- the reduction of `hsolve` to an exact, unique solve and the matrix identity `D' (g • y) = g • (D y)` -/
+theorem generalized_solve_equivariant (g : Tf ℝ) (ts : List LinkType)
+    (solve : List (List ℝ) → List ℝ → List ℝ) (D D' : List (List ℝ)) (b : List ℝ) (nv : Nat)
+    (hmass : ∀ y : List ℝ, y.length = nv → matVec D' (pFlat g ts y) = pFlat g ts (matVec D y))
+    (hex : matVec D (solve D b) = b) (hlen : (solve D b).length = nv)
+    (huniq : ∀ y : List ℝ, y.length = nv → matVec D' y = pFlat g ts b → solve D' (pFlat g ts b) = y) :
+    solve D' (pFlat g ts b) = pFlat g ts (solve D b) :=
+  solve_equiv_of_exact g ts solve D D' b nv hmass hex hlen huniq
+
+/-! ### non-vacuity: the single free body `exSys1` (unit mass, unit inertia about its centre of mass, no
+damping, no armature) under `exG`; its mass matrix is the identity in both scenes, for which
+`solve := fun _ b => b` is the exact solve -/
+example (act : List ℝ) :
+    let q : List ℝ := [0, 0, 1, 1, 0, 0, 0]
+    let qd : List ℝ := [1, 0, 0, 0, 0, 0.5]
+    let qfc : List ℝ := [0, 0, 0, 0, 0, 0]
+    let solve : List (List ℝ) → List ℝ → List ℝ := fun _ b => b
+    exG.rot.IsUnit ∧ Full exSys1 q qd
+    ∧ exSys1.parents.length = exSys1.types.length ∧ exSys1.links.length = exSys1.types.length
+    ∧ (∀ i (h : i < exSys1.parents.length), -1 ≤ exSys1.parents[i] ∧ exSys1.parents[i] < (i : Int))
+    ∧ (∀ x ∈ exSys1.parents.zip (exSys1.links.zip (linkSlices exSys1.types q qd exSys1.dofs)),
+        LinkOK x.1 x.2.1 x.2.2 ∧ (x.1 < 0 → x.2.2.typ = .free))
+    ∧ (∀ l ∈ linkSlices exSys1.types q qd exSys1.dofs, l.typ = .free → l.dofs.map (·.motion) = freeBasis)
+    ∧ (∀ r ∈ rootIdx exSys1.parents,
+        segSum 0 (· + ·) (exSys1.links.map (·.inertia.mass)) (rootIdx exSys1.parents) r ≠ 0)
+    ∧ (∀ lk ∈ exSys1.links, Q4.normSq lk.inertia.tf.rot ≠ 0)
+    ∧ (∀ l ∈ linkSlices exSys1.types q qd exSys1.dofs, IsoFree l)
+    ∧ ActAgreeG exSys1.acts q qd (xqFlat exG exSys1.types q) (pFlat exG exSys1.types qd)
+    ∧ pFlat exG exSys1.types (toTau exSys1.nv exSys1.acts act q qd) = toTau exSys1.nv exSys1.acts act q qd
+    ∧ qfc.length = exSys1.nv
+    ∧ (solve (dampedMatrix (dynInit exSys1 q qd).massMx (exSys1.dofs.map (·.damping)) exSys1.dt)
+        (List.zipWith (· + ·) (qfSmooth exSys1 (dynInit exSys1 q qd) q qd act) qfc)).length = exSys1.nv
+    ∧ solve (dampedMatrix (dynInit (C05L.gSys exG exSys1) (xqFlat exG exSys1.types q)
+            (pFlat exG exSys1.types qd)).massMx (exSys1.dofs.map (·.damping)) exSys1.dt)
+          (pFlat exG exSys1.types (List.zipWith (· + ·) (qfSmooth exSys1 (dynInit exSys1 q qd) q qd act) qfc))
+        = pFlat exG exSys1.types (solve (dampedMatrix (dynInit exSys1 q qd).massMx
+            (exSys1.dofs.map (·.damping)) exSys1.dt)
+          (List.zipWith (· + ·) (qfSmooth exSys1 (dynInit exSys1 q qd) q qd act) qfc)) := by
+  intro q qd qfc solve
+  have hslice : linkSlices exSys1.types q qd exSys1.dofs
+      = [⟨.free, q, qd, exSys1.dofs⟩] := by
+    simp [exSys1, exSys, linkSlices, LinkType.qWidth, LinkType.qdWidth, q, qd]
+  have hlinkok : ∀ x ∈ exSys1.parents.zip (exSys1.links.zip (linkSlices exSys1.types q qd exSys1.dofs)),
+      LinkOK x.1 x.2.1 x.2.2 ∧ (x.1 < 0 → x.2.2.typ = .free) := by
+    intro x hx
+    rw [hslice] at hx
+    simp only [exSys1, exSys, List.zip_cons_cons, List.zip_nil_right, List.mem_singleton] at hx
+    subst hx
+    refine ⟨⟨?_, rfl, ?_, ?_⟩, fun _ => rfl⟩
+    · simp [exLink, Tf.id, Q4.IsUnit, Q4.normSq, Q4.one]
+    · intro _
+      refine ⟨by norm_num, rfl, rfl, by simp [qd], 0, 0, 1, 1, 0, 0, 0, by simp [q], ?_⟩
+      simp [Q4.IsUnit, Q4.normSq]
+    · intro h; simp at h
+  have hexists : ∀ l ∈ linkSlices exSys1.types q qd exSys1.dofs, l = ⟨.free, q, qd, exSys1.dofs⟩ := by
+    intro l hl; rw [hslice] at hl; simpa using hl
+  have hnv : exSys1.nv = 6 := rfl
+  have hgu : exG.rot.IsUnit := by simp only [Q4.IsUnit, Q4.normSq, exG]; norm_num
+  have hfullx : Full exSys1 q qd := ⟨rfl, rfl, rfl⟩
+  have hpar : ∀ i (h : i < exSys1.parents.length), -1 ≤ exSys1.parents[i] ∧ exSys1.parents[i] < (i : Int) := by
+    intro i hi
+    have hi' : i < 1 := hi
+    match i, hi' with
+    | 0, _ => simp [exSys1]
+  have hbasis : ∀ l ∈ linkSlices exSys1.types q qd exSys1.dofs, l.typ = .free →
+      l.dofs.map (·.motion) = freeBasis := by
+    intro l hl _; rw [hexists l hl]; simp [exSys1, exSys, exDof, freeBasis, V3.zero]
+  have hmass : ∀ r ∈ rootIdx exSys1.parents,
+      segSum 0 (· + ·) (exSys1.links.map (·.inertia.mass)) (rootIdx exSys1.parents) r ≠ 0 := by
+    intro r hr
+    simp [exSys1, exSys, rootIdx, scanFwd] at hr
+    subst hr
+    simp [exSys1, exSys, rootIdx, scanFwd, segSum, exLink]
+  have hirot : ∀ lk ∈ exSys1.links, Q4.normSq lk.inertia.tf.rot ≠ 0 := by
+    intro lk hlk
+    simp [exSys1, exSys] at hlk
+    subst hlk
+    simp [exLink, Tf.id, Q4.normSq, Q4.one]
+  have hiso : ∀ l ∈ linkSlices exSys1.types q qd exSys1.dofs, IsoFree l := by
+    intro l hl _
+    rw [hexists l hl]
+    exact ⟨exDof ⟨0, 0, 0⟩ ⟨1, 0, 0⟩, exDof ⟨0, 0, 0⟩ ⟨0, 1, 0⟩, exDof ⟨0, 0, 0⟩ ⟨0, 0, 1⟩,
+      exDof ⟨1, 0, 0⟩ ⟨0, 0, 0⟩, exDof ⟨0, 1, 0⟩ ⟨0, 0, 0⟩, exDof ⟨0, 0, 1⟩ ⟨0, 0, 0⟩, rfl, rfl, rfl, rfl, rfl⟩
+  have hq : (qfSmooth exSys1 (dynInit exSys1 q qd) q qd act).length = exSys1.nv :=
+    qfSmooth_length exG hgu exSys1 q qd
+      (StepOK.of_linkOK exG exSys1 q qd hfullx rfl rfl hpar hlinkok hbasis hmass hirot hiso
+        (generalized_forward_equivariant exG hgu exSys1 q qd hfullx hpar hlinkok)) act
+  refine ⟨hgu, hfullx, rfl, rfl, hpar, hlinkok, hbasis, hmass, hirot, hiso, ?_, ?_, rfl, ?_, rfl⟩
+  · intro a ha; simp [exSys1] at ha
+  · apply pFlat_of_linZero
+    simp [exSys1, exSys, toTau, LinZero, Sys.nv, LinkType.qdWidth]
+  · show (List.zipWith (· + ·) _ qfc).length = _
+    simp [hq, hnv, qfc]
+
+end generalized
+end Brax.C05
+/-! ===== end section C05c ===== -/
+
+/-! ### sibling order and components, whole step — `init` and whole trajectories of a disjoint union -/
+namespace Brax.C05
+section permInit
+open C05L C05P C04L MC C05Perm
+
+/-- **C05, mechanically disconnected parts, `spring.pipeline.init`**: the initial state of the union
+at the concatenated coordinates is the concatenation of the two initial states
+(`kinematics.forward` by `scanFwd_disjoint_union`, the rest row by row) -/
+theorem spring_init_components (s1 s2 : Sys ℝ) (hwf1 : s1.WF = true) (hwf2 : s2.WF = true)
+    (hg : SameGlobals s1 s2) (hm : s1.springMassScale = s2.springMassScale) (q1 q2 qd1 qd2 : List ℝ)
+    (hq : q1.length = s1.nq) (hqd : qd1.length = s1.nv) :
+    Spring.init (unionSys s1 s2) (q1 ++ q2) (qd1 ++ qd2)
+      = unionState (Spring.init s1 q1 qd1) (Spring.init s2 q2 qd2) :=
+  spring_init_union s1 s2 (WFParts.of_wf hwf1) (WFParts.of_wf hwf2) hg hm q1 q2 qd1 qd2 hq hqd
+
+/-- the same for `positional.pipeline.init` -/
+theorem positional_init_components (s1 s2 : Sys ℝ) (hwf1 : s1.WF = true) (hwf2 : s2.WF = true)
+    (hg : SameGlobalsP s1 s2) (q1 q2 qd1 qd2 : List ℝ)
+    (hq : q1.length = s1.nq) (hqd : qd1.length = s1.nv) :
+    Positional.init (unionSys s1 s2) (q1 ++ q2) (qd1 ++ qd2)
+      = unionStateP (Positional.init s1 q1 qd1) (Positional.init s2 q2 qd2) :=
+  positional_init_union s1 s2 (WFParts.of_wf hwf1) (WFParts.of_wf hwf2) hg q1 q2 qd1 qd2 hq hqd
+
+/-- **C05, "mechanically disconnected parts of one model evolve exactly as each would alone"**, spring
+pipeline, contact-free: `init` at the concatenated coordinates followed by any number of steps on the
+concatenated controls is the concatenation of the two separate trajectories -/
+theorem spring_whole_trajectory_components
+    (inv12 inv1 inv2 : List (Tf ℝ) → List (Motion ℝ) → List ℝ × List ℝ) (s1 s2 : Sys ℝ)
+    (hwf1 : s1.WF = true) (hwf2 : s2.WF = true) (hg : SameGlobals s1 s2)
+    (hm : s1.springMassScale = s2.springMassScale)
+    (hinv : InvSplit s1.numLinks inv12 inv1 inv2) (hi1 : InvLen s1 inv1) (hi2 : InvLen s2 inv2)
+    (acts : List (List ℝ × List ℝ)) (hact : ∀ p ∈ acts, p.1.length = s1.acts.length)
+    (q1 q2 qd1 qd2 : List ℝ) (hq1 : q1.length = s1.nq) (hqd1 : qd1.length = s1.nv)
+    (hq2 : q2.length = s2.nq) (hqd2 : qd2.length = s2.nv) :
+    steps inv12 (unionSys s1 s2) (Spring.init (unionSys s1 s2) (q1 ++ q2) (qd1 ++ qd2))
+        (acts.map fun p => p.1 ++ p.2)
+      = unionState (steps inv1 s1 (Spring.init s1 q1 qd1) (acts.map (·.1)))
+          (steps inv2 s2 (Spring.init s2 q2 qd2) (acts.map (·.2))) :=
+  spring_trajectory_union inv12 inv1 inv2 s1 s2 (WFParts.of_wf hwf1) (WFParts.of_wf hwf2) hg hm hinv
+    hi1 hi2 acts hact q1 q2 qd1 qd2 hq1 hqd1 hq2 hqd2
+
+/-- the same for the positional pipeline -/
+theorem positional_whole_trajectory_components
+    (inv12 inv1 inv2 : List (Tf ℝ) → List (Motion ℝ) → List ℝ × List ℝ) (s1 s2 : Sys ℝ)
+    (hwf1 : s1.WF = true) (hwf2 : s2.WF = true) (hg : SameGlobalsP s1 s2)
+    (hinv : InvSplit s1.numLinks inv12 inv1 inv2) (hi1 : InvLen s1 inv1) (hi2 : InvLen s2 inv2)
+    (acts : List (List ℝ × List ℝ)) (hact : ∀ p ∈ acts, p.1.length = s1.acts.length)
+    (q1 q2 qd1 qd2 : List ℝ) (hq1 : q1.length = s1.nq) (hqd1 : qd1.length = s1.nv)
+    (hq2 : q2.length = s2.nq) (hqd2 : qd2.length = s2.nv) :
+    psteps inv12 (unionSys s1 s2) (Positional.init (unionSys s1 s2) (q1 ++ q2) (qd1 ++ qd2))
+        (acts.map fun p => p.1 ++ p.2)
+      = unionStateP (psteps inv1 s1 (Positional.init s1 q1 qd1) (acts.map (·.1)))
+          (psteps inv2 s2 (Positional.init s2 q2 qd2) (acts.map (·.2))) :=
+  positional_trajectory_union inv12 inv1 inv2 s1 s2 (WFParts.of_wf hwf1) (WFParts.of_wf hwf2) hg hinv
+    hi1 hi2 acts hact q1 q2 qd1 qd2 hq1 hqd1 hq2 hqd2
+
+/-- non-vacuity: every hypothesis of the two whole-trajectory theorems holds for two copies of
+`exSys` with `exInvS`, any controls of the right length, and the coordinates of `exState` -/
+example (us : List (ℝ × ℝ)) :
+    exSys.WF = true ∧ SameGlobals exSys exSys ∧ SameGlobalsP exSys exSys
+    ∧ InvSplit exSys.numLinks (exInvS (unionSys exSys exSys)) (exInvS exSys) (exInvS exSys)
+    ∧ InvLen exSys (exInvS exSys)
+    ∧ (∀ p ∈ us.map (fun u => ([u.1], [u.2])), p.1.length = exSys.acts.length)
+    ∧ exState.q.length = exSys.nq ∧ exState.qd.length = exSys.nv := by
+  refine ⟨exSys_wf, ⟨rfl, rfl, rfl, rfl, rfl, rfl⟩, ⟨⟨rfl, rfl, rfl, rfl, rfl, rfl⟩, rfl, rfl, rfl⟩,
+    exInvS_split _ _, exInvS_len _, ?_, ?_, ?_⟩
+  · intro p hp
+    obtain ⟨u, _, rfl⟩ := List.mem_map.mp hp
+    rfl
+  · simp [exState, exSys, Sys.nq, LinkType.qWidth]
+  · simp [exState, exSys, Sys.nv, LinkType.qdWidth]
+
+end permInit
 end Brax.C05
